@@ -108,10 +108,9 @@ def curOf (xs : List Nat) (pos : Nat) (rm : Bool) : Spec.Seq.Cursor := { done :=
 def zipUntouched : Nat := 777777
 
 /-- the ideal list under a zip call whose two sides are the *same* array: the two list-level calls of
-the C text in sequence on one list.  `nadd`: how many of the two inner `add_at` calls of `zip_iter_add`
-got their room (2, 1 — the second one's growth step was refused, its status is not reported — or 0:
-the call itself reported `CC_ERR_ALLOC`). -/
-def specZip1 (op : String) (xs : List Nat) (pos : Nat) (rm : Bool) (x y nadd : Nat) :
+the C text in sequence on one list.  `blk`: the blocking status `zip_iter_add` reported (a refused or
+limit-bound growth step of either inner insertion; both or none are inserted — A11). -/
+def specZip1 (op : String) (xs : List Nat) (pos : Nat) (rm : Bool) (x y : Nat) (blk : Option Stat) :
     Stat × Option (Nat × Nat) × List Nat × Nat × Bool :=
   match op with
   | "zit_next" =>
@@ -125,10 +124,11 @@ def specZip1 (op : String) (xs : List Nat) (pos : Nat) (rm : Bool) (x y nadd : N
       let r2 := Spec.Seq.removeAt r1.2.2 (Spec.Seq.wdec pos)
       (.ok, some (r1.2.1.getD 0, r2.2.1.getD zipUntouched), r2.2.2, pos - 1, true)
   | "zit_add" =>
-    if nadd = 0 then (.errAlloc, none, xs, pos, rm) else
-    let xs1 := (Spec.Seq.addAt xs x pos).2
-    let xs2 := if nadd = 1 then xs1 else (Spec.Seq.addAt xs1 y pos).2
-    (.ok, none, xs2, pos + 1, rm)
+    match blk with
+    | some st => (st, none, xs, pos, rm)
+    | none =>
+      let xs1 := (Spec.Seq.addAt xs x pos).2
+      (.ok, none, (Spec.Seq.addAt xs1 y pos).2, pos + 1, rm)
   | "zit_replace" =>
     if Spec.Seq.wdec pos ≥ xs.length then (.errOutOfRange, none, xs, pos, rm)
     else
@@ -197,8 +197,8 @@ def step (s : Sess) (c : Cmd) : Sess × String × String :=
             | "zit_remove" => Arr.zipRemove1 a1 it zipUntouched s.mem
             | "zit_add" => let r := Arr.zipAdd1 a1 it x y s.mem; (r.1, none, r.2.1, r.2.2.1, r.2.2.2)
             | _ => let r := Arr.zipReplace1 a1 it x y s.mem; (r.1, r.2.1, r.2.2.1, it, r.2.2.2)
-          let nadd := if st == Stat.errAlloc then 0 else a'.size - a1.size
-          let (sst, so, xs', pos', rm') := specZip1 c.op xs1 pos rm x y nadd
+          let blk : Option Stat := if c.op == "zit_add" ∧ (st == Stat.errAlloc ∨ st == Stat.errMaxCapacity) then some st else none
+          let (sst, so, xs', pos', rm') := specZip1 c.op xs1 pos rm x y blk
           fin { (s.setArr k1 (some a')).setLst k1 (some xs') with zit := some (k1, k2, it'), szit := some (k1, k2, pos', rm'), mem := m }
             (fmtOut2 sst so) (fmtOut2 st o)
         else
